@@ -4,7 +4,7 @@
     Trees may be conflicted (any odd number of terms); "the value of X at p" is the list
     of the terms' values, compared through its net counts [den]. *)
 From Verif Require Import Base.Prelude Model.Merge Model.TreeMerge Model.TreeCase Model.Rebase Model.C08.
-From Verif Require Import Proofs.TreeValue Proofs.TreeMerge Proofs.C07 Proofs.C08.
+From Verif Require Import Proofs.TreeValue Proofs.TreeMerge Proofs.C07 Proofs.C08 Proofs.MergeIdentities.
 Local Open Scope Z_scope.
 
 Section Statements.
@@ -62,6 +62,14 @@ Section Statements.
   Proof. exact (equal_bases accept content_merge). Qed.
   Theorem C08_empty_commit : forall b' b : tree, rebase_tree accept content_merge [b'] [b] [b] = [b'].
   Proof. exact (empty_commit accept content_merge). Qed.
+
+  (** The same for conflicted bases of any arity. *)
+  Theorem C08_equal_bases_general : forall (b : list tree) (t : tree), Nat.odd (length b) = true ->
+    rebase_tree accept content_merge b b [t] = [t].
+  Proof. intros b t Hb. exact (proj2 (base_identity_general accept content_merge t b Hb)). Qed.
+  Theorem C08_empty_commit_general : forall (b' : tree) (b : list tree), Nat.odd (length b) = true ->
+    rebase_tree accept content_merge [b'] b b = [b'].
+  Proof. intros b' b Hb. exact (proj1 (base_identity_general accept content_merge b' b Hb)). Qed.
 
   (** find_recursive_merge_commits terminates: if several greatest common ancestors always
       lie strictly below the commit they were computed for (a fact of the commit graph),
@@ -125,6 +133,7 @@ Example C08_nonvacuous :
 Proof. vm_compute. repeat split. Qed.
 
 Print Assumptions C08_same_parents.
+Print Assumptions C08_equal_bases_general.
 Print Assumptions C08_unchanged_paths.
 Print Assumptions C08_agreeing_parents.
 Print Assumptions C08_merge_commits_terminates.
